@@ -285,6 +285,11 @@ class Counter:
         return self.t
 
 
+class Opaque(Exception):
+    """a construct the evaluator cannot read"""
+    pass
+
+
 class Fail(Exception):
     """raised inside a branch function when the branch ends with an error return"""
 
@@ -327,14 +332,20 @@ class Builder:
     def seq(self):
         return {"steps": self.steps, "ret": self.ret}
 
-    def run(self, fn):
-        """run fn(self) -> value; records ret; returns seq"""
+    def run(self, fn, top=False):
+        """run fn(self) -> value; records ret; returns seq. A construct the evaluator cannot read inside a *nested*
+        sequence becomes an opaque step there (so that properties that do not look inside that region are unaffected)."""
         try:
             v = fn(self)
             if self.ret is None:
                 self.ret = ["ok", v]
         except Fail as f:
             self.ret = ["err", f.kind, f.severity]
+        except Opaque as o:
+            if top:
+                raise
+            self.steps.append(["opaque", self.counter.fresh(), "unreadable: %s" % o])
+            self.ret = ["ok", ["opaque", "unreadable"]]
         return self.seq()
 
     def _nested(self, fn, same_input=True, drops=False):
@@ -536,7 +547,7 @@ class Builder:
 
 def build(fn):
     b = Builder()
-    return renumber(b.run(fn))
+    return renumber(b.run(fn, top=True))
 
 
 def renumber(seq):
@@ -769,10 +780,6 @@ NOM_PRIM["nom::number::streaming::u8"] = (8, "be", "S")
 NOM_PRIM["nom::number::complete::u8"] = (8, "be", "C")
 
 ERR_CTOR = {"nom::internal::Err::Error": "Error", "nom::internal::Err::Failure": "Failure"}
-
-
-class Opaque(Exception):
-    pass
 
 
 class Closure:
@@ -1012,6 +1019,11 @@ class Ev:
                     return (v,)
                 raise Opaque("statement-level if without return")
             if e["k"] == "match" and is_try(e) is not None:
+                inner = strip(is_try(e))
+                if inner.get("ty", "").startswith("core::result::Result<(), "):
+                    # `check(..)?;` - a guard helper returning Result<(), nom::Err<..>>
+                    self.eval_unit_result(inner, env, gen, b)
+                    return None
                 # `expr?;` value discarded
                 self.eval_tuple_expr(e, env, gen, b, rem_wild=False)
                 return None
@@ -1019,6 +1031,72 @@ class Ev:
         if k == "item":
             return None
         raise Opaque("statement kind " + k)
+
+    def eval_unit_result(self, e, env, gen, b, depth=0):
+        """e : Result<(), Err>.  Emits the guards it stands for."""
+        e = strip(e)
+        k = e["k"]
+        if depth > 6:
+            raise Opaque("guard helper nesting")
+        if k == "call":
+            f = strip(e["f"])
+            fp = path_of(f)
+            if fp == "core::result::Result::Ok":
+                return
+            if fp == "core::result::Result::Err":
+                kind, sev = self.err_kind(e["args"][0])
+                b.fail(kind, sev)
+            if f["k"] == "path" and f.get("local") and f.get("dk") in ("Fn", "AssocFn"):
+                callee = self.facts.fn(f.get("resolved") or f["path"])
+                if callee is None:
+                    raise Opaque("no body for guard helper")
+                env2 = {}
+                for p, a in zip(callee["params"], e["args"]):
+                    self.bind_pat(p, self.sym_or_closure(a, env, gen), env2)
+                return self.eval_unit_result(callee["hir"], env2, {}, b, depth + 1)
+            raise Opaque("unit-result call " + str(fp))
+        if k == "block":
+            env = dict(env)
+            for s in e["stmts"]:
+                if s["k"] == "let" and s.get("init") is not None and s.get("els") is None:
+                    self.bind_pat(s["pat"], self.sym_or_closure(s["init"], env, gen), env)
+                elif s["k"] in ("semi", "sexpr"):
+                    x = strip(s["e"])
+                    if x["k"] == "if" and x.get("f") is None:
+                        r = self.returns_expr(x["t"])
+                        if r is None:
+                            raise Opaque("statement in guard helper")
+                        c = self.sym(x["c"], env, gen)
+                        rr = strip(r)
+                        if rr["k"] == "call" and path_of(rr["f"]) == "core::result::Result::Err":
+                            kind, sev = self.err_kind(rr["args"][0])
+                            if sev == "Error":
+                                b.guard(c, kind)
+                            else:
+                                b.ite(c, lambda nb: nb.fail(kind, sev), lambda nb: tup())
+                        else:
+                            raise Opaque("guard helper returns a non-error early")
+                    elif x["k"] == "ret":
+                        return self.eval_unit_result(x["x"], env, gen, b, depth + 1)
+                    elif x["k"] == "match" and is_try(x) is not None:
+                        self.eval_unit_result(is_try(x), env, gen, b, depth + 1)
+                    else:
+                        raise Opaque("statement in guard helper")
+                elif s["k"] == "item":
+                    continue
+                else:
+                    raise Opaque("statement in guard helper")
+            if e["expr"] is not None:
+                return self.eval_unit_result(e["expr"], env, gen, b, depth + 1)
+            return
+        if k == "if":
+            c = self.sym(e["c"], env, gen)
+            b.ite(c, lambda nb: (self.eval_unit_result(e["t"], env, gen, nb, depth + 1), tup())[1],
+                  lambda nb: (self.eval_unit_result(e["f"], env, gen, nb, depth + 1), tup())[1] if e.get("f") is not None else tup())
+            return
+        if k == "ret":
+            return self.eval_unit_result(e["x"], env, gen, b, depth + 1)
+        raise Opaque("unit-result expression " + k)
 
     def eval_result_block_noskip(self, blk, env, gen, b):
         env = dict(env)
